@@ -543,7 +543,9 @@ func posClause(after int) string {
 	case -1:
 		return ""
 	case 0:
-		return " first"
+		// first NON-KEY position: the model keeps the key column first (a column placed before pk changes
+		// the full column order only, which dolt_conflicts_resolve compares but the row merger ignores)
+		return " after pk"
 	}
 	return fmt.Sprintf(" after c%d", after)
 }
@@ -721,28 +723,60 @@ func logicalEq(a, b map[int]Val) bool {
 	return true
 }
 
-// ShapeB: the input shape of known finding merge-reorder-rawbytes at key k: two versions of the
-// row under different schemas (columns reordered, or a different number of columns with trailing
-// NULLs, which are not stored) have equal stored tuples but different logical rows (or vice
-// versa), so the byte comparison of the differ misjudges the change.
+// ShapeB: the input shape of known finding merge-reorder-rawbytes at key k — exactly this: two
+// versions of the row (two of base / ours / theirs) are stored under DIFFERENT schemas, their
+// stored tuples are byte-equal (trailing NULL fields are not stored), and they are not the same
+// logical row.  "Same logical row" = every column both schemas have holds the same value, and a
+// column only one of the two schemas has holds NULL there without that being a change of a base
+// cell (the column is not a base column, or the base row is absent, or the base cell is NULL too).
+//   - reorder form:    ours MODIFY a AFTER b; ours (b=1,a=2) and theirs (a=1,b=2) both store [1,2];
+//   - no-reorder form: theirs drops c1, ours sets c1 = NULL (base 'zz'): ours stores [] like theirs.
 func ShapeB(base, left, right *Table, k int64) bool {
-	type ver struct {
-		t *Table
-	}
 	vs := []*Table{base, left, right}
 	for i := 0; i < 3; i++ {
 		for j := i + 1; j < 3; j++ {
 			a, aok := vs[i].Rows[k]
 			b, bok := vs[j].Rows[k]
-			if !aok || !bok {
+			if !aok || !bok || WireSchema(vs[i].Cols) == WireSchema(vs[j].Cols) {
 				continue
 			}
-			if rawEq(a, b) != logicalEq(vs[i].Logical(k), vs[j].Logical(k)) {
+			if rawEq(a, b) && !sameLogical(base, vs[i], vs[j], k) {
 				return true
 			}
 		}
 	}
 	return false
+}
+
+func sameLogical(base, x, y *Table, k int64) bool {
+	lx, ly := x.Logical(k), y.Logical(k)
+	lb := base.Logical(k)
+	oneSided := func(id int, v Val) bool {
+		if !v.Null {
+			return false
+		}
+		if lb != nil {
+			if bv, ok := lb[id]; ok && !bv.Null {
+				return false // a base cell was changed to NULL on one side and dropped on the other
+			}
+		}
+		return true
+	}
+	for id, v := range lx {
+		if w, ok := ly[id]; ok {
+			if v != w {
+				return false
+			}
+		} else if !oneSided(id, v) {
+			return false
+		}
+	}
+	for id, w := range ly {
+		if _, ok := lx[id]; !ok && !oneSided(id, w) {
+			return false
+		}
+	}
+	return true
 }
 
 // SameOrder reports whether the columns two schemas share appear in the same relative order.
